@@ -9,6 +9,7 @@ import (
 	"path/filepath"
 	"reflect"
 	"sort"
+	"strings"
 	"syscall"
 	"time"
 
@@ -296,6 +297,49 @@ func (cacheStream) Generate(rng *rand.Rand, tier string, emit func(Case)) {
 			_ = json.Unmarshal(rj, &rm)
 			emit(Case{"op": "permrestore", "layout": rm, "auto": true, "dropuid": true, "nospawn": true})
 		}
+		if i%3 == 2 {
+			// a history on one cache: an earlier population of the same directories is scanned first; then files are
+			// rewritten in place - same path, where possible the same size and the same modification time (cp -p,
+			// rsync -t, reproducible packages) -, repaired, broken, added and removed; then the cache is refreshed
+			pre := l
+			pre.Phys = map[string][]fileDesc{}
+			for p, files := range l.Phys {
+				var fs []fileDesc
+				for _, f := range files {
+					g := f
+					switch rng.Intn(8) {
+					case 0, 1: // other content of the same length
+						if len(g.Tag) > 0 {
+							g.Tag = string(rune('p'+rng.Intn(8))) + g.Tag[1:]
+						}
+					case 2: // was broken, is repaired / was fine, is broken
+						switch g.Kind {
+						case "valid":
+							g.Kind = "garbage"
+						case "garbage", "empty", "semantic":
+							g.Kind = "valid"
+						}
+					case 3: // defined other devices
+						g.Devs = []string{poolDevs[rng.Intn(3)]}
+					case 4: // did not exist
+						continue
+					}
+					fs = append(fs, g)
+				}
+				if rng.Intn(4) == 0 { // a file that is gone afterwards
+					fs = append(fs, fileDesc{Name: "zz-old.json", Kind: "valid", Vendor: poolVendors[rng.Intn(2)], Class: poolClasses[rng.Intn(2)], Devs: []string{poolDevs[rng.Intn(3)]}, Tag: "OLD"})
+				}
+				pre.Phys[p] = fs
+			}
+			pj, _ := json.Marshal(pre)
+			var pm map[string]any
+			_ = json.Unmarshal(pj, &pm)
+			emit(Case{"op": "refresh", "layout": lm, "prelayout": pm, "auto": false, "nospawn": true})
+		}
+		if i%4 == 1 && len(l.Dirs) > 1 {
+			// the cache first has the same directories in another order (or one of them twice), then is given the list
+			emit(Case{"op": "refresh", "layout": lm, "auto": i%8 == 1, "predirs": []string{"reverse", "rotate", "dup"}[rng.Intn(3)], "nospawn": true})
+		}
 		if i%5 == 0 {
 			// the same through an auto-refresh cache (explicit Refresh on an up-to-date cache reports the cached errors)
 			emit(Case{"op": "refresh", "layout": lm, "auto": true, "nospawn": true})
@@ -314,6 +358,23 @@ func (cacheStream) Generate(rng *rand.Rand, tier string, emit func(Case)) {
 				}
 			}
 			emit(Case{"op": "inject", "layout": lm, "req": hxList(req), "niloci": rng.Intn(15) == 0, "ocikind": rng.Intn(3)})
+			if i%7 == 3 && k == 0 {
+				// a long request: 9-14 names, most of them unresolvable (unknown, malformed, repeated), some from the pool
+				var long []string
+				for m := 9 + rng.Intn(6); m > 0; m-- {
+					switch rng.Intn(5) {
+					case 0:
+						long = append(long, poolVendors[rng.Intn(2)]+"/"+poolClasses[rng.Intn(2)]+"="+poolDevs[rng.Intn(3)])
+					case 1:
+						long = append(long, "not a device")
+					case 2:
+						long = append(long, fmt.Sprintf("unknown.com/c=x%d", rng.Intn(3)))
+					default:
+						long = append(long, fmt.Sprintf("unknown%d.org/k=d%d", m, rng.Intn(20)))
+					}
+				}
+				emit(Case{"op": "inject", "layout": lm, "req": hxList(long), "niloci": false, "ocikind": rng.Intn(3)})
+			}
 			if i%4 == 0 && k == 0 {
 				// the same request on an auto-refresh cache that was created before the directories existed: the
 				// injection itself has to notice them and refresh
@@ -504,6 +565,40 @@ func (cacheStream) Execute(c Case) {
 					c["trigger"] = path
 				}
 			}
+		} else if c["prelayout"] != nil {
+			var pre layoutDesc
+			pj, _ := json.Marshal(c["prelayout"])
+			_ = json.Unmarshal(pj, &pre)
+			predirs, _ := materialize(pre)
+			type st struct {
+				size  int64
+				mtime time.Time
+			}
+			old := map[string]st{}
+			_ = filepath.Walk(cacheRoot, func(p string, info os.FileInfo, err error) error {
+				if err == nil && info.Mode().IsRegular() {
+					old[p] = st{info.Size(), info.ModTime()}
+				}
+				return nil
+			})
+			historyCache, _ = cdi.NewCache(cdi.WithSpecDirs(predirs...), cdi.WithAutoRefresh(false))
+			_ = historyCache.Refresh()
+			_ = historyCache.ListDevices()
+			dirs, view = materialize(l)
+			_ = filepath.Walk(cacheRoot, func(p string, info os.FileInfo, err error) error {
+				o, was := old[p]
+				if err != nil || !info.Mode().IsRegular() || !was {
+					return nil
+				}
+				if info.Size() < o.size {
+					if f, err := os.OpenFile(p, os.O_APPEND|os.O_WRONLY, 0); err == nil {
+						_, _ = f.Write([]byte(strings.Repeat("\n", int(o.size-info.Size()))))
+						_ = f.Close()
+					}
+				}
+				_ = os.Chtimes(p, o.mtime, o.mtime)
+				return nil
+			})
 		} else {
 			dirs, view = materialize(l)
 		}
@@ -529,6 +624,13 @@ func (cacheStream) Execute(c Case) {
 			cmd.SysProcAttr = &syscall.SysProcAttr{Credential: &syscall.Credential{Uid: 65534, Gid: 65534}}
 			out, err := cmd.Output()
 			var co map[string]any
+			if _, exited := err.(*exec.ExitError); err != nil && !exited {
+				// the child could not be started at all (e.g. this binary lies below a directory the
+				// unprivileged user cannot traverse): no observation, not a crash of the library
+				skip("cannot start the unprivileged child: " + err.Error())
+				c["dirs"] = []any{}
+				return
+			}
 			if err != nil || json.Unmarshal(out, &co) != nil {
 				obs["panic"] = true
 				return
@@ -565,6 +667,26 @@ func (cacheStream) Execute(c Case) {
 		_ = os.Rename(hidden, cacheRoot)
 		defer func() { _ = cache.Configure(cdi.WithAutoRefresh(false)) }()
 		c["op"] = "inject"
+	} else if historyCache != nil {
+		cache, historyCache = historyCache, nil // same directories, scanned before the files changed
+	} else if pd, _ := c["predirs"].(string); pd != "" && len(dirs) > 1 {
+		pre := append([]string{}, dirs...)
+		switch pd {
+		case "reverse":
+			for a, b := 0, len(pre)-1; a < b; a, b = a+1, b-1 {
+				pre[a], pre[b] = pre[b], pre[a]
+			}
+		case "rotate":
+			pre = append(pre[1:], pre[0])
+		case "dup":
+			pre = append(pre, pre[0])
+		}
+		cache, _ = cdi.NewCache(cdi.WithSpecDirs(pre...), cdi.WithAutoRefresh(auto))
+		_ = cache.ListDevices()
+		_ = cache.Configure(cdi.WithSpecDirs(dirs...))
+	} else if nw, _ := c["nowatch"].(bool); nw {
+		withFdShortage(func() { cache, _ = cdi.NewCache(cdi.WithSpecDirs(dirs...), cdi.WithAutoRefresh(true)) })
+		defer func() { _ = cache.Configure(cdi.WithAutoRefresh(false)) }()
 	} else {
 		cache, _ = cdi.NewCache(cdi.WithSpecDirs(dirs...), cdi.WithAutoRefresh(auto))
 	}
@@ -601,7 +723,9 @@ func (cacheStream) Execute(c Case) {
 	}
 	var rerr error
 	if late, _ := c["latedirs"].(bool); !late {
-		rerr = cache.Refresh()
+		if nw, _ := c["nowatch"].(bool); !nw {
+			rerr = cache.Refresh()
+		}
 	}
 	switch c["op"] {
 	case "refresh":
@@ -671,6 +795,13 @@ func (cacheStream) Execute(c Case) {
 				cacheStream{}.Execute(sp)
 				spawned = append(spawned, sp)
 			}
+			// every listed device through an auto-refresh cache that was created while no descriptor was free (no
+			// watcher: every query rescans, also in the middle of whatever a caller is doing)
+			if len(devs) > 1 {
+				sp := Case{"stream": "cache", "op": "inject", "layout": c["layout"], "req": hxList(devs), "niloci": false, "ocikind": 1, "nowatch": true}
+				cacheStream{}.Execute(sp)
+				spawned = append(spawned, sp)
+			}
 			c["spawn"] = spawned
 		}
 	case "inject":
@@ -710,7 +841,7 @@ func (cacheStream) Execute(c Case) {
 		obs["ocichanged"] = jsonImage(target) != before
 		// combined edits rebuilt by the harness from the query API, applied with the real Apply
 		combined := &cdi.ContainerEdits{}
-		seen := map[*cdi.Spec]bool{}
+		seen := map[string]bool{} // by file, not by object: a cache without a watcher builds new objects at every query
 		resolvedAll := true
 		for _, q := range req {
 			d := cache.GetDevice(q)
@@ -718,8 +849,8 @@ func (cacheStream) Execute(c Case) {
 				resolvedAll = false
 				continue
 			}
-			if !seen[d.GetSpec()] {
-				seen[d.GetSpec()] = true
+			if key := fmt.Sprint(d.GetSpec().GetPriority(), d.GetSpec().GetPath()); !seen[key] {
+				seen[key] = true
 				combined.Append(&cdi.ContainerEdits{ContainerEdits: &d.GetSpec().ContainerEdits})
 			}
 			combined.Append(&cdi.ContainerEdits{ContainerEdits: &d.ContainerEdits})
@@ -734,9 +865,41 @@ func (cacheStream) Execute(c Case) {
 			aerr := combined.Apply(ref)
 			obs["matchesapply"] = aerr == nil && reflect.DeepEqual(ref, target) && jsonImage(ref) == jsonImage(target)
 		}
+		// the same request again on the same cache, then a request that fails half-way (a resolvable prefix followed
+		// by an unknown name), then the same request once more: an injection is a function of the directories, the
+		// request and the OCI spec - nothing may be carried over from one call to the next
+		aux := []any{}
+		if !nilOci {
+			first := fmt.Sprint(unres, err != nil, jsonImage(target))
+			again := func(label string) {
+				t := mk()
+				u, e := cache.InjectDevices(t, req...)
+				if got := fmt.Sprint(u, e != nil, jsonImage(t)); got != first {
+					aux = append(aux, fmt.Sprintf("InjectDevices is not repeatable on one cache (%s): unresolved %q -> %q, error %v -> %v, OCI spec equal: %v",
+						label, unres, u, err != nil, e != nil, jsonImage(t) == jsonImage(target)))
+				}
+			}
+			again("same request twice")
+			mixed := append(append([]string{}, req...), "unknown.com/c=carry-over")
+			tm := mk()
+			bm := jsonImage(tm)
+			um, em := cache.InjectDevices(tm, mixed...)
+			if em == nil || len(um) == 0 || um[len(um)-1] != "unknown.com/c=carry-over" || jsonImage(tm) != bm {
+				aux = append(aux, fmt.Sprintf("a request ending in an unknown name: error %v, unresolved %q, OCI spec modified %v", em != nil, um, jsonImage(tm) != bm))
+			}
+			um2, em2 := cache.InjectDevices(mk(), mixed...)
+			if fmt.Sprint(um2, em2 != nil) != fmt.Sprint(um, em != nil) {
+				aux = append(aux, fmt.Sprintf("the same failing request twice: unresolved %q then %q", um, um2))
+			}
+			again("after a failed request")
+		}
+		obs["aux"] = aux
 	}
 }
 
+
+// historyCache: the cache of a case with a "prelayout", created on the earlier population of the directories
+var historyCache *cdi.Cache
 
 // cacheAux cross-checks the accessor-style and per-Spec entry points of the cache against the
 // primary query API on the same cache state; every discrepancy is one string.
